@@ -66,6 +66,17 @@ theorem reaper_spares_protected {s : Reap.State} {p : Reap.Pass} (h : Reap.Reach
     (hl : s.live = true) (hp : s.pass = some p) : ∀ x ∈ p.prot, x ∈ s.idle ∨ x ∈ s.out :=
   Reap.reaper_spares_protected h hr hl hp
 
+/-- "retires idle workers beyond the configured minimum": never below it — while a pass of the reaper is under way at
+    least as many workers are alive (idle, or out with a job) as the pass protects, and a pass protects the first
+    min(numMinIdleWorkers(), length of its snapshot) nodes -/
+theorem reaper_keeps_minimum {s : Reap.State} {p : Reap.Pass} (h : Reap.Reach false s) (hr : s.running = true)
+    (hl : s.live = true) (hp : s.pass = some p) : p.prot.length ≤ s.idle.length + s.out.length :=
+  Reap.reaper_keeps_minimum h hr hl hp
+
+theorem snapshot_protects_min {s s' : Reap.State} {t : Nat} (hl : s.live = true)
+    (h : Reap.step false s (.snap s.gen t) = .ok s') : ∃ p, s'.pass = some p ∧ p.prot.length = min t s.idle.length :=
+  Reap.snapshot_protects_min hl h
+
 /-- the reaper of a run that has ended removes nothing (the stop-channel check of fix b9eba0f) -/
 theorem ended_run_cannot_remove {s : Reap.State} {r n : Nat} {ok : Bool} (hne : r ≠ s.gen ∨ s.live = false) :
     ∀ s', Reap.step false s (.rmv r n ok) ≠ .ok s' := Reap.ended_run_cannot_remove hne
